@@ -109,8 +109,8 @@ theorem encode_ttl_bounded (cipher mac zip dl ttl dc dm dz defTtl maxTtl : Int) 
     so the authenticated payload and metadata are still returned; for every other failure the message
     is reset exactly once before it is sent. -/
 theorem soft_errors_keep_payload
-    (e r1 r2 r3 r4 r5 r6 r7 r8 r9 r10 r11 r12 r13 r14 rs : Int) :
-    let out := dec_process_msg e r1 r2 r3 r4 r5 r6 r7 r8 r9 r10 r11 r12 r13 r14 rs
+    (e r1 r2 r3 r4 r5 r6 r7 r8 r9 r10 r11 r12 r13 r14 rs ri : Int) :
+    let out := dec_process_msg e r2 ri r1 r3 r4 r5 r6 r7 r8 r9 r10 r11 r12 r13 r14 rs
     ((e = EMUNGE_CRED_EXPIRED ∨ e = EMUNGE_CRED_REWOUND ∨ e = EMUNGE_CRED_REPLAYED) →
         out.count "m_msg_reset" = 0) ∧
     (out.ret ≠ 0 → rs = 0 → e ≠ EMUNGE_CRED_EXPIRED → e ≠ EMUNGE_CRED_REWOUND → e ≠ EMUNGE_CRED_REPLAYED →
